@@ -742,7 +742,8 @@ class Evaluator:
                 st.emit(("panic", "assert:" + t["msg"], (), w))
                 return [Path("panic", None, st, "assert:" + t["msg"])]
             if kn is None:
-                # continue on the success edge and remember the fact
+                # continue on the success edge and remember the fact; A4 judges the panic edge
+                st.emit(("assert_undecided", t["msg"], c, w))
                 self.assume(st, c, 1 if t["expected"] else 0)
             act.block = t["target"]
             return [st]
